@@ -561,3 +561,219 @@ Proof.
 Qed.
 
 End Agg.
+
+(* ====================================================================================== *)
+(* 4. the sort behind median, and median                                                   *)
+(* the pure insertion sort on magnitudes: x goes after every element that is not greater *)
+Fixpoint qins (x : qval) (l : list qval) : list qval :=
+  match l with
+  | [] => [x]
+  | y :: r => if Qltb (mag x) (mag y) then x :: y :: r else y :: qins x r
+  end.
+Definition qsort_from (l acc : list qval) : list qval := fold_left (fun a x => qins x a) l acc.
+Definition qsort (l : list qval) : list qval := qsort_from l [].
+
+Lemma qins_perm x l : Permutation (x :: l) (qins x l).
+Proof.
+  induction l as [|y r IH]; cbn [qins]; [apply Permutation_refl|].
+  destruct (Qltb (mag x) (mag y)); [apply Permutation_refl|].
+  eapply perm_trans; [apply perm_swap|]. apply perm_skip. exact IH.
+Qed.
+
+Lemma qins_sorted x l : StronglySorted lem l -> StronglySorted lem (qins x l).
+Proof.
+  induction l as [|y r IH]; intro S; cbn [qins].
+  - constructor; constructor.
+  - inversion S as [|? ? Sr Fy]; subst.
+    destruct (Qltb (mag x) (mag y)) eqn:L.
+    + apply Qltb_true in L. constructor; [exact S|]. constructor; [apply Qlt_le_weak; exact L|].
+      eapply Forall_impl; [|exact Fy]. unfold lem. intros s Hs. apply Qlt_le_weak.
+      eapply Qlt_le_trans; eassumption.
+    + apply Qltb_false in L. constructor; [apply IH; exact Sr|].
+      eapply Permutation_Forall; [apply qins_perm|]. constructor; [exact L|exact Fy].
+Qed.
+
+Lemma qsort_from_perm l : forall acc, Permutation (l ++ acc) (qsort_from l acc).
+Proof.
+  induction l as [|x l IH]; intro acc; cbn [qsort_from fold_left app]; [apply Permutation_refl|].
+  eapply perm_trans; [|apply IH]. eapply perm_trans; [apply Permutation_middle|].
+  apply Permutation_app_head. apply qins_perm.
+Qed.
+
+Lemma qsort_from_sorted l : forall acc, StronglySorted lem acc -> StronglySorted lem (qsort_from l acc).
+Proof.
+  induction l as [|x l IH]; intros acc S; cbn [qsort_from fold_left]; [exact S|].
+  apply IH. apply qins_sorted. exact S.
+Qed.
+
+Theorem qsort_perm l : Permutation l (qsort l).
+Proof. pose proof (qsort_from_perm l []) as H. rewrite app_nil_r in H. exact H. Qed.
+Theorem qsort_sorted l : StronglySorted lem (qsort l).
+Proof. apply qsort_from_sorted. constructor. Qed.
+
+(* stability: elements that compare equal keep their original order *)
+Definition same_mag (q : Q) (s : qval) : bool := Qeqb (mag s) q.
+
+Lemma Qeqb_false_lt a b : Qeqb a b = false <-> ~ a == b.
+Proof.
+  split; intro H.
+  - intro E. apply Qeqb_true in E. congruence.
+  - destruct (Qeqb a b) eqn:E; [|reflexivity]. apply Qeqb_true in E. contradiction.
+Qed.
+
+Lemma filter_none_gt q x l : Forall (fun s => mag x < mag s) l -> mag x == q -> filter (same_mag q) l = [].
+Proof.
+  intros F E. induction l as [|y r IH]; [reflexivity|]. inversion F as [|? ? Hy Fr]; subst.
+  cbn [filter]. unfold same_mag at 1.
+  assert (N : Qeqb (mag y) q = false).
+  { apply Qeqb_false_lt. intro X. rewrite X, <- E in Hy. exact (Qlt_irrefl _ Hy). }
+  rewrite N. apply IH. exact Fr.
+Qed.
+
+Lemma qins_stable q x l : StronglySorted lem l ->
+  filter (same_mag q) (qins x l) = filter (same_mag q) l ++ filter (same_mag q) [x].
+Proof.
+  induction l as [|y r IH]; intro S; cbn [qins]; [reflexivity|].
+  inversion S as [|? ? Sr Fy]; subst.
+  destruct (Qltb (mag x) (mag y)) eqn:L.
+  - apply Qltb_true in L. cbn [filter]. destruct (same_mag q x) eqn:Ex; [|rewrite app_nil_r; reflexivity].
+    unfold same_mag in Ex. apply Qeqb_true in Ex.
+    assert (G : Forall (fun s => mag x < mag s) (y :: r)).
+    { constructor; [exact L|]. eapply Forall_impl; [|exact Fy]. unfold lem. intros s Hs.
+      eapply Qlt_le_trans; eassumption. }
+    pose proof (filter_none_gt q x (y :: r) G Ex) as N. cbn [filter] in N. rewrite N. reflexivity.
+  - cbn [filter]. rewrite (IH Sr). destruct (same_mag q y); reflexivity.
+Qed.
+
+Lemma qsort_from_stable q l : forall acc, StronglySorted lem acc ->
+  filter (same_mag q) (qsort_from l acc) = filter (same_mag q) acc ++ filter (same_mag q) l.
+Proof.
+  induction l as [|x l IH]; intros acc S; cbn [qsort_from fold_left]; [rewrite app_nil_r; reflexivity|].
+  change (fold_left (fun a x0 => qins x0 a) l (qins x acc)) with (qsort_from l (qins x acc)).
+  rewrite (IH (qins x acc) (qins_sorted x acc S)), (qins_stable q x acc S), <- app_assoc.
+  f_equal. cbn [filter]. destruct (same_mag q x); reflexivity.
+Qed.
+
+Theorem qsort_stable q l : filter (same_mag q) (qsort l) = filter (same_mag q) l.
+Proof. unfold qsort. rewrite qsort_from_stable by constructor. reflexivity. Qed.
+
+Section Median.
+Variable ndims : nat.
+Notation qd := (qdim ndims).
+
+Lemma ka_cmp_ok a b : qd a = qd b ->
+  ka_cmp ndims (VS a) (VS b) =
+    Ok (if Qltb (mag a) (mag b) then (-1)%Z else if Qeqb (mag a) (mag b) then 0%Z else 1%Z).
+Proof.
+  intro H. unfold ka_cmp. rewrite (v_lt_ok ndims a b H), truthy_b2n.
+  destruct (Qltb (mag a) (mag b)); [reflexivity|].
+  rewrite (v_eq_ok ndims a b H), truthy_b2n. destruct (Qeqb (mag a) (mag b)); reflexivity.
+Qed.
+
+Lemma ins_ok x l d : qd x = d -> udim ndims d l -> ins ndims (VS x) (map VS l) = Ok (map VS (qins x l)).
+Proof.
+  intros Dx Dl. induction l as [|y r IH]; [reflexivity|].
+  inversion Dl as [|? ? Dy Dr]; subst.
+  cbn [map ins qins]. rewrite (ka_cmp_ok x y (eq_sym Dy)).
+  destruct (Qltb (mag x) (mag y)); [reflexivity|].
+  assert (E : ((if Qeqb (mag x) (mag y) then 0 else 1) <? 0)%Z = false) by (destruct (Qeqb (mag x) (mag y)); reflexivity).
+  rewrite E, (IH Dr). reflexivity.
+Qed.
+
+Lemma udim_perm d l l' : Permutation l l' -> udim ndims d l -> udim ndims d l'.
+Proof. intros P U. eapply Permutation_Forall; eassumption. Qed.
+
+Lemma sort_from_ok l d : forall acc, udim ndims d l -> udim ndims d acc ->
+  foldM (fun a x => ins ndims x a) (map VS l) (map VS acc) = Ok (map VS (qsort_from l acc)).
+Proof.
+  induction l as [|x l IH]; intros acc Dl Da; [reflexivity|].
+  inversion Dl as [|? ? Dx Dl']; subst.
+  cbn [map foldM qsort_from fold_left]. rewrite (ins_ok x acc (qd x) eq_refl Da).
+  apply IH; [exact Dl'|]. eapply udim_perm; [apply qins_perm|]. constructor; [reflexivity|exact Da].
+Qed.
+
+Theorem sort_ok l d : udim ndims d l -> ka_sort ndims (map VS l) = Ok (map VS (qsort l)).
+Proof. intro D. unfold ka_sort. apply (sort_from_ok l d [] D). constructor. Qed.
+
+Lemma nth_lt_some {A} (l : list A) k : (k < List.length l)%nat -> exists a, nth_error l k = Some a.
+Proof.
+  intro H. destruct (nth_error l k) as [a|] eqn:E; [eauto|]. apply nth_error_None in E. lia.
+Qed.
+
+Lemma div2_lt n : (0 < n)%nat -> (Nat.div2 n < n)%nat.
+Proof. apply Nat.lt_div2. Qed.
+
+Theorem median_spec x l d : udim ndims d (x :: l) -> List.length d = ndims -> Forall qexact (x :: l) ->
+  let sl := qsort (x :: l) in
+  let n := List.length (x :: l) in
+  (Nat.even n = false ->
+     exists m, nth_error sl (Nat.div2 n) = Some m /\ array_median ndims (map VS (x :: l)) = Ok (VS m))
+  /\ (Nat.even n = true ->
+     exists a b r, nth_error sl (Nat.div2 n - 1) = Some a /\ nth_error sl (Nat.div2 n) = Some b
+       /\ array_median ndims (map VS (x :: l)) = Ok (VS r)
+       /\ qd r = d /\ mag r == (mag a + mag b) / 2 /\ qcanon r /\ qexact r
+       /\ is_q r = (is_q a || is_q b)%bool).
+Proof.
+  intros D Ld E sl n.
+  pose proof (qsort_perm (x :: l)) as P. fold sl in P.
+  assert (Ln : List.length sl = n) by (symmetry; apply Permutation_length; exact P).
+  assert (Dsl : udim ndims d sl) by (eapply udim_perm; eassumption).
+  assert (Esl : Forall qexact sl) by (eapply Permutation_Forall; eassumption).
+  assert (Npos : (0 < n)%nat) by (unfold n; cbn; lia).
+  assert (Med : array_median ndims (map VS (x :: l)) =
+      let k := List.length (map VS sl) in
+      if Nat.even k then
+        match nth_error (map VS sl) (Nat.div2 k - 1), nth_error (map VS sl) (Nat.div2 k) with
+        | Some a, Some b => match v_binop ndims QAdd a b with
+                            | Raise e => Raise e
+                            | Ok s => v_binop ndims QDiv s (vint 2)
+                            end
+        | _, _ => Raise IndexError
+        end
+      else match nth_error (map VS sl) (Nat.div2 k) with Some m => Ok m | None => Raise IndexError end).
+  { unfold array_median. cbn [map]. change (VS x :: map VS l) with (map VS (x :: l)).
+    rewrite (sort_ok (x :: l) d D). reflexivity. }
+  rewrite map_length, Ln in Med. cbv zeta in Med.
+  destruct (nth_lt_some sl (Nat.div2 n)) as [b Hb]; [rewrite Ln; apply div2_lt; exact Npos|].
+  split; intro Ev; rewrite Ev in Med.
+  - exists b. split; [exact Hb|]. rewrite Med, nth_error_map, Hb. reflexivity.
+  - destruct (nth_lt_some sl (Nat.div2 n - 1)) as [a Ha].
+    { rewrite Ln. pose proof (div2_lt n Npos). lia. }
+    rewrite !nth_error_map, Ha, Hb in Med. cbn [option_map] in Med.
+    assert (Da : qd a = d) by (eapply Forall_forall in Dsl; [exact Dsl|eapply nth_error_In; exact Ha]).
+    assert (Db : qd b = d) by (eapply Forall_forall in Dsl; [exact Dsl|eapply nth_error_In; exact Hb]).
+    assert (Ea : qexact a) by (eapply Forall_forall in Esl; [exact Esl|eapply nth_error_In; exact Ha]).
+    assert (Eb : qexact b) by (eapply Forall_forall in Esl; [exact Esl|eapply nth_error_In; exact Hb]).
+    destruct (add_correct (qmag a) (qmag b) (mag a) (mag b) Ea Eb (Qeq_refl _) (Qeq_refl _))
+      as (v & Hv & Vv & Cv & Evv).
+    cbn [v_binop] in Med. rewrite (q_add_ok ndims a b d v Da Db Hv) in Med. cbn [lift_s] in Med.
+    set (s := mk (is_q a || is_q b) v d) in Med.
+    assert (Dsd : qd s = d).
+    { apply mk_dim. intro F. apply orb_false_iff in F. rewrite <- Da. apply isq_false_dim. apply F. }
+    assert (Es : qexact s) by (unfold qexact, s; rewrite mk_mag; exact Evv).
+    destruct (div_by_int ndims s d 2 Dsd Ld Es) as (r & Hr & Dr & Mr & Cr & Er & Ir); [lia|].
+    exists a, b, r. split; [exact Ha|]. split; [exact Hb|]. split; [rewrite Med; exact Hr|].
+    split; [exact Dr|]. split.
+    + rewrite Mr. unfold mag at 1. unfold s. rewrite mk_mag, Vv. reflexivity.
+    + split; [exact Cr|]. split; [exact Er|]. rewrite Ir. unfold s. apply mk_isq.
+Qed.
+
+Theorem median_mixed p pre x post d : udim ndims d (p :: pre) -> qd x <> d ->
+  array_median ndims (map VS ((p :: pre) ++ x :: post)) = Raise IncompatibleQuantitiesError.
+Proof.
+  intros D Hx.
+  assert (S : ka_sort ndims (map VS ((p :: pre) ++ x :: post)) = Raise IncompatibleQuantitiesError).
+  { unfold ka_sort. rewrite map_app, foldM_app.
+    change (@nil value) with (map VS []).
+    rewrite (sort_from_ok (p :: pre) d [] D (Forall_nil _)).
+    pose proof (qsort_from_perm (p :: pre) []) as P. rewrite app_nil_r in P.
+    assert (Ds : udim ndims d (qsort_from (p :: pre) [])) by (eapply udim_perm; eassumption).
+    destruct (qsort_from (p :: pre) []) as [|y ys] eqn:Q.
+    - apply Permutation_length in P. discriminate.
+    - pose proof (Forall_inv Ds) as Dy. cbn beta in Dy.
+      cbn [map foldM ins]. unfold ka_cmp. cbn [v_cmp]. rewrite q_cmp_mismatch; [reflexivity|].
+      rewrite Dy. exact Hx. }
+  unfold array_median. rewrite S. cbn [app map]. reflexivity.
+Qed.
+
+End Median.
